@@ -43,10 +43,8 @@ func pkgOf(f *ssa.Function) *ssa.Package {
 // stripTable: which characters does the marker-stripping operation inside t delete? Understands a
 // regexp replacement by "" with a constant pattern and a strings.Replacer built from constants.
 func stripTable(t *Term) (deleted string, found bool) {
+	// every stripping step on the way counts: ReplaceAll(ReplaceAll(x, "<", ""), ">", "") removes both
 	t.walk(func(x *Term) {
-		if found {
-			return
-		}
 		if x.isCall("(*regexp.Regexp).ReplaceAllString") && len(x.Args) == 3 && x.Args[2].isConst(`""`) {
 			if pat, ok := regexpPattern(x.Args[0]); ok {
 				if re, err := regexp.Compile(pat); err == nil {
@@ -861,13 +859,17 @@ func checkLocationPrinter(c *Ctx, bl, pl *ssa.Function) {
 	if pl != nil && len(printerKW) > 0 {
 		ptb := newDeepTB(pl)
 		parserKW := map[string]bool{}
-		for _, f := range family(pl) {
-			ftb := ptb
-			if f != pl {
-				ftb = newDeepTB(f)
+		_ = ptb
+		// every string constant the package mentions outside the printer's own functions, however it is
+		// used (==, switch, HasPrefix, a dispatch table filled by an initialiser)
+		inPrinter := map[*ssa.Function]bool{}
+		for _, f := range family(bl) {
+			inPrinter[f] = true
+		}
+		for _, f := range c.W.moduleFuncs() {
+			if pkgOf(f) != pkgOf(pl) || inPrinter[f] || f.Blocks == nil {
+				continue
 			}
-			_ = ftb
-			// every string constant the parser mentions, however it is used (==, switch, HasPrefix, a table)
 			eachInstr(f, func(i ssa.Instruction) {
 				for _, op := range i.Operands(nil) {
 					if op == nil || *op == nil {
